@@ -749,7 +749,12 @@ func (m *Module) renderInjectors(p *Pkg) []world.File {
 		if p.Cgo && file == 0 {
 			cgo = "/*\n#cgo LDFLAGS: -lm\n*/\nimport \"C\"\n\n"
 		}
-		head := "//go:build wireinject\n// +build wireinject\n\npackage " + p.Name + "\n\n" + cgo + m.importBlock(p.Idx, imports, []string{"github.com/google/wire"}, anon)
+		lineDir := ""
+		if p.LineDir && file > 0 {
+			// as a template expander would leave it: the position of everything below is reported as inject.tmpl:N
+			lineDir = "//line inject.tmpl:1\n"
+		}
+		head := lineDir + "//go:build wireinject\n// +build wireinject\n\npackage " + p.Name + "\n\n" + cgo + m.importBlock(p.Idx, imports, []string{"github.com/google/wire"}, anon)
 		out = append(out, world.File{Path: p.Path + "/" + m.injectorFileName(p, file), Data: []byte(head + b.String())})
 	}
 	return out
